@@ -30,7 +30,9 @@ GensPresent(tp, p) == {tp.outs[i].gen : i \in {j \in 1..Len(tp.outs) : tp.outs[j
 (* ------------------------------------------------------------ the macro view of one run *)
 Sel(a) == IF a.all THEN FixClosure(ToSet(a.entry)) ELSE ToSet(a.entry)
 LocalOf(a) == FixClosure(ToSet(a.entry))
-CachedOK(a, pre, p) == a.all /\ ~a.force /\ pre.sum_present /\ pre.pkgs[p].sum # "" /\ pre.pkgs[p].sum = pre.pkgs[p].h
+(* a directory whose hash cannot be computed (h = "") is never "unchanged" *)
+CachedOK(a, pre, p) == a.all /\ ~a.force /\ pre.sum_present /\ pre.pkgs[p].sum # "" /\ pre.pkgs[p].h # "" /\ pre.pkgs[p].sum = pre.pkgs[p].h
+AllHashed(pre) == \A p \in FixPkgs : pre.pkgs[p].h # ""
 ToDo(a, pre) == SelectSeq(FixOrder, LAMBDA p : p \in Sel(a) /\ ~CachedOK(a, pre, p))       \* packages to regenerate, in order
 Skips(a, pre) == {p \in Sel(a) : CachedOK(a, pre, p)}
 
@@ -93,7 +95,7 @@ SumAsExpected(a, pre, post) ==
 
 MemoKey(c, a, pre, p) == <<p, pre.pkgs[p].in, a.gens, [i \in 1..Len(a.gens) |-> BehOf(c, p, a.gens[i])], c.newer, c.stateful>>
 MemoApplies(c, a, p) == \A g \in ToSet(a.gens) : ~Ignored(BehOf(c, p, g))
-QuietRun(c, a, pre, o) == a.all /\ ~a.force /\ a.fault.kind = "none" /\ ~o.failed /\ ~o.died /\ ToSet(a.entry) = FixPkgs /\ Len(a.gens) = 3
+QuietRun(c, a, pre, o) == a.all /\ ~a.force /\ a.fault.kind = "none" /\ ~o.failed /\ ~o.died /\ ToSet(a.entry) = FixPkgs /\ Len(a.gens) = 3 /\ AllHashed(pre)
 
 Holds(cj, r, quietNow, memoNow) ==
     LET c == r.case  a == r.case.step  o == r.obs  pre == r.obs.pre  post == r.obs.post
@@ -122,7 +124,8 @@ Holds(cj, r, quietNow, memoNow) ==
       [] cj = "C07_NotProcessedUntouched" -> \A p \in FixPkgs \ Reached(a, pre) : post.pkgs[p].out = pre.pkgs[p].out /\ post.pkgs[p].in = pre.pkgs[p].in
       [] cj = "C08_SkipOnlyIfUnchanged" -> \A p \in TurnCame(a, pre) : p \notin Called(o) => CachedOK(a, pre, p)
       [] cj = "C08_ChangedRegenerates" -> \A p \in TurnCame(a, pre) : ~CachedOK(a, pre, p) => p \in Called(o)
-      [] cj = "C08_SumAfterSuccess" -> (a.all /\ ~o.failed /\ ~o.died) => SumAsExpected(a, pre, post)
+      (* what the line of a package without a hash looks like is not specified *)
+      [] cj = "C08_SumAfterSuccess" -> (a.all /\ ~o.failed /\ ~o.died /\ AllHashed(pre)) => SumAsExpected(a, pre, post)
       [] cj = "C08_Converges" -> (QuietRun(c, a, pre, o) /\ quietNow + 1 >= ConvergeBoundOf(c.layout)) => (o.calls = <<>> /\ o.changes = <<>>)
 
 IsRun(r) == r.case.step.op = "run"
